@@ -181,6 +181,7 @@ def body_graph(cube, **kw):
     from maltoolbox.attackgraph.analyzers.apriori import calculate_viability_and_necessity
     link, dval, ana, att, noasset = bool(kw['l']), pick(kw['d'], [None, 1.0, 0.3]), bool(kw['an']), bool(kw['at']), bool(kw['na'])
     rmn = bool(kw['rmn']) if 'rmn' in kw else False
+    twice = bool(kw['tw']) if 'tw' in kw else False
     with notrace(), reclimit():
         ing = install()
         DB.clear()
@@ -205,6 +206,14 @@ def body_graph(cube, **kw):
             g.nodes[0].children.append(x); x.parents.append(g.nodes[0])
         if rmn:
             g.remove_node(g.nodes[1])        # node ids are no longer 0..n-1 in list order
+        if twice:
+            ing.ingest_attack_graph(g, 'uri', 'user', 'pw', 'first', delete=False)
+            # state changes between the two exports
+            from maltoolbox.attackgraph import Attacker
+            b = Attacker(name='late')
+            g.add_attacker(b)
+            b.compromise(g.nodes[-1])
+            g.nodes[0].is_necessary = not g.nodes[0].is_necessary
         ing.ingest_attack_graph(g, 'uri', 'user', 'pw', 'agdb', delete=False)
         db = DB['agdb']
         if db['creates'] != 1 or db['commits'] != 1:
@@ -244,9 +253,9 @@ def queries(tier):
                 bound='3-asset L_INH models (ids 7, 0, -3; first asset G1/G2/Am; bounded subsets of 5 links incl. two associations between the same pair and '
                       'duplicate-named Dup classes, and a self-typed association Chain with an asset linked to itself) ingested into a recording database stub and read back with get_model; result rows returned in an order '
                       'chosen by symbolic picks (asset rows: all 6 permutations; relationship rows: reversal and rotation)'),
-          Query(name='graph', body=body_graph, params=[B('l'), I('d', 0, 2), B('an'), B('at'), B('na'), B('rmn')], timeout=400,
-                witnesses=[({}, {'l': True, 'd': 1, 'an': True, 'at': True, 'na': True, 'rmn': True})],
-                bound='attack graph of a 2-asset L_MINI model (link, defense value, analysis, attacker, an extra node without asset, a node removed so that ids are not dense): one database node per '
+          Query(name='graph', body=body_graph, params=[B('l'), I('d', 0, 2), B('an'), B('at'), B('na'), B('rmn'), B('tw')], timeout=400,
+                witnesses=[({}, {'l': True, 'd': 1, 'an': True, 'at': True, 'na': True, 'rmn': True, 'tw': True})],
+                bound='attack graph of a 2-asset L_MINI model (link, defense value, analysis, attacker, an extra node without asset, a node removed so that ids are not dense; exported once, or twice with a state change in between): one database node per '
                       'attack step with its attributes, one relationship per edge')]
     return qs
 
